@@ -1065,7 +1065,7 @@ parameter_t gen_parameter(vf::rng_t& rng, std::string& kind)
         const auto min   = rng.chance(0.05) ? -std::numeric_limits<scalar_t>::infinity() : scale * rng.uniform(-1.0, 1.0);
         const auto max   = rng.chance(0.05) ? std::numeric_limits<scalar_t>::infinity()
                                             : (std::isfinite(min) ? min : 0.0) + scale * rng.uniform(0.1, 2.0);
-        const auto lo    = std::isfinite(min) ? min : max - scale;
+        const auto lo    = std::isfinite(min) ? min : (std::isfinite(max) ? max - scale : -scale);
         const auto hi    = std::isfinite(max) ? max : lo + scale;
         const auto val   = lo + (hi - lo) * rng.uniform(0.05, 0.95);
         return parameter_t::make_scalar(name, min, gen_comp(rng), val, gen_comp(rng), max);
